@@ -12,9 +12,16 @@ def main():
     ap.add_argument('--replay')
     args = ap.parse_args()
     seed = int(os.environ.get('VERIF_SEED', '0') or 0)
-    from vf import tree
-    tree.load()
-    mod = importlib.import_module('vf.checks.' + args.pid.lower())
+    try:
+        from vf import tree
+        tree.load()
+        mod = importlib.import_module('vf.checks.' + args.pid.lower())
+    except BaseException:
+        import traceback
+        traceback.print_exc()
+        sys.stderr.write('HARNESS-ERROR: the tree does not import (or the check module is broken)\n')
+        sys.stdout.flush()
+        os._exit(2)
     if args.replay:
         with open(args.replay) as f:
             rep = json.load(f)
